@@ -125,8 +125,26 @@ package blob
 //@   ensures result.0 >= 0
 
 // absJoin = filepath.Abs(filepath.Join(...)): trusted, a function of its elements (and of the process's working directory)
-//@ extern func absJoin
+// (C08 extension) fpabs: filepath.Abs as an uninterpreted function of its argument (the working directory
+// of the process is taken as fixed, as the `pure reads none` view of absJoin always did)
+//@ spec func fpabs(p string) string
+//@ extern func path/filepath.Abs
 //@   pure reads none
+//@   ensures result.1 == nil ==> result.0 == fpabs(path)
+//@ func absJoin
+//@   pure reads none
+// ---- added by the C08 extension: body verified (was a trusted extern). The name is Abs(Join(all the
+// elements given)): nothing dropped, nothing added, and what is returned is what Abs answered. An Abs
+// error (os.Getwd failed) panics: no name at all rather than a wrong one, so `panic` is not in the safe list.
+//@   opt safe index,slice,div,typeassert,makeslice,shift,nilmap
+//@   ghost-at entry : ghost_joined := 0
+//@   ghost-at entry : ghost_abs := 0
+//@   assert-at call path/filepath.Join #1 : arg0 == pp
+//@   ghost-at after call path/filepath.Join #1 : ghost_joined := blid(result)
+//@   assert-at call path/filepath.Abs #1 : blid(arg0) == ghost_joined
+//@   ghost-at after call path/filepath.Abs #1 : ghost_abs := blid(result.0)
+//@   assert-at return #1 : blid(result) == ghost_abs && err == nil
+//@   ensures len(pp) == 3 ==> result == fpabs(fpjoin3(pp[0], pp[1], pp[2]))
 //@ extern func (*DiskCache).GetFile
 //@   pure reads none
 // (added by the C08 audit; body checked although callers use the extern view above) the file name of a
@@ -135,6 +153,9 @@ package blob
 // the name written by Put/Import
 //@   assert-at call fmt.Sprintf #1 : arg0 == "sha256-%x" && len(arg1) == 1
 //@   assert-at call absJoin #1 : len(arg0) == 3 && arg0[0] == c.dir && arg0[1] == "blobs" && arg0[2] == filename
+// ---- added by the C08 extension: with absJoin's body verified, the name returned IS Abs(Join(c.dir, "blobs", filename))
+// (nothing appended or replaced after the join)
+//@   assert-at return #1 : result == fpabs(fpjoin3(c.dir, "blobs", filename))
 
 // ---- copyNamedFile -------------------------------------------------------------------------
 // returns in source order: 1 already there  2 open failed  3 size 0  4 copy error
@@ -226,6 +247,12 @@ package blob
 // (FAILS at Link's call: the manifest path is not content-addressed - relinking a name to another
 // manifest of the same size is silently skipped. Genuine defect, see props/C08.json.)
 //@   requires name == c.GetFile(out)
+// ---- added by the C08 extension: the proved half of assumption A-open. The handle opened above has accepted
+// no byte when the copy starts (nothing is written to f before the gated writer gets it: bytes put in front
+// would shift the verified bytes), and the sink of the gated writer is a file handle. (What stays assumed is
+// only the engine gap: that the ghost fields of the interface value cw.w are those of the pointer f.)
+//@   assert-at call io.Copy #1 : f.ghost_len == 0 && f.ghost_stream == 0 && f.ghost_ishash == 0
+//@   assert-at call io.Copy #1 : tagis(cw.w, "*os.File")
 
 // ---- Put / Link / Get / Resolve / Import / Unlink -----------------------------------------------
 
@@ -242,6 +269,7 @@ package blob
 //@ extern func os.CreateTemp
 //@   modifies nothing
 //@   ensures result.1 == nil ==> result.0 != nil && fresh(result.0)
+//@   ensures result.1 == nil ==> result.0.ghost_len == 0 && result.0.ghost_stream == 0 && result.0.ghost_ishash == 0     -- (C08 extension) a just created temp file has accepted no byte, as for os.OpenFile
 //@ extern func os.(*File).Name
 //@   pure reads none
 //@ extern func os.Rename
@@ -249,11 +277,42 @@ package blob
 //@ extern func io.ReadAll
 //@   modifies nothing
 //@   ensures result.0 == nil || fresh(result.0)
-//@ extern func PutBytes
+//@ extern func bytes.NewReader
+//@   modifies nothing
+//@   ensures result != nil
+//@ func PutBytes
 //@   requires c.testHookBeforeFinalWrite == nil
 //@   modifies nothing
-//@ extern func splitNameDigest
+// ---- added by the C08 extension: body verified (was a trusted extern; only the frame stays trusted: Put ->
+// copyNamedFile have no frame clause, they write files and fresh objects only). Resolve's "re-store as a
+// blob" stores exactly the bytes read under exactly the digest computed: same cache, same digest, the
+// size is the length of the data, the source is a reader over the data.
+//@   opt frame assume
+// (NOT provable, engine: `data` has the type parameter S; the conversion []byte(data) and len(data) are opaque
+// fresh values for the engine, so "size == len(data)" and "the reader delivers data" cannot be stated. A wrong
+// size or source fails at the hash gate of copyNamedFile rather than storing wrong bytes.)
+//@   assume-at call Put #1 : 0 <= arg3 && arg3 < (1 << 62)      -- machine range (A-range): arg3 is int64(len(data)), the length of a byte slice / string in memory
+//@   assert-at call Put #1 : arg0 == c && arg1 == d
+//@   assert-at call Put #1 : tagis(arg2, "*bytes.Reader")
+//@   ghost-at entry : ghost_putres := 0
+//@   ghost-at after call Put #1 : ghost_putres := ite(result == nil, 1, 0)
+//@   ensures result == nil ==> ghost_putres == 1
+//@ extern func strings.LastIndexByte
+//@   pure
+//@   ensures -1 <= result && result < len(s)
+//@   ensures result >= 0 ==> s[result] == c
+//@   ensures forall k int :: result < k && k < len(s) ==> s[k] != c
+//@ func splitNameDigest
 //@   pure reads none
+// ---- added by the C08 extension: body verified (was a trusted extern). Resolve answers "<name>@<digest>"
+// with the digest given and everything else through the manifest of <name>: the split is at the LAST
+// '@' (64), the name is everything before it, the digest everything after it, and without an '@' the
+// whole string is the name (an off-by-one here resolves another name or parses a digest with an '@' in front).
+//@   ensures (forall k int :: 0 <= k && k < len(s) ==> s[k] != 64) ==> name == s && digest == ""
+//@   ensures name == s || (len(name) < len(s) && s[len(name)] == 64 && name == s[:len(name)] && digest == s[len(name)+1:])
+//@   ensures name == s ==> digest == "" && (forall k int :: 0 <= k && k < len(s) ==> s[k] != 64)
+//@   ensures forall k int :: 0 <= k && k < len(digest) ==> digest[k] != 64
+//@   ensures len(name) + len(digest) <= len(s) && len(s) <= len(name) + len(digest) + 1
 // ghost_tee == 1: reading from this reader feeds a hash (result of io.TeeReader, or a limited view of one)
 //@ extern func io.TeeReader
 //@   modifies nothing
@@ -316,6 +375,13 @@ package blob
 //@   assert-at call os.Open #1 : arg0 == filename
 //@   assert-at call io.LimitReader #1 : arg0 == r && arg1 == limit
 //@   assert-at call io.ReadAll #1 : arg0.ghost_tee == 1
+// ---- added by the C08 extension: the A-tee assumption says "h was fed exactly the bytes returned, starting from
+// the empty stream": that start is proved here - the hash teed into is brand new when reading starts (bytes hashed
+// before the file's, e.g. a prefix or a second use of one hash object, would make the digest one of other bytes)
+//@   assert-at call io.ReadAll #1 : h.ghost_len == 0 && h.ghost_stream == 0 && h.ghost_ishash == 1
+// the error returns carry no data and the zero digest
+//@   assert-at return #1 : result.0 == nil && result.2 != nil
+//@   assert-at return #2 : result.0 == nil && result.2 != nil
 
 // Resolve: the digest returned is the one readAndSum computed from the bytes it read, and
 // exactly these bytes are stored under it.
@@ -333,6 +399,12 @@ package blob
 //@   ghost-at entry : ghost_restored := 0
 //@   ghost-at after call PutBytes #1 : ghost_restored := ite(result == nil, 1, 0)
 //@   assert-at return #5 : ghost_restored == 1 && result.0 == d && result.1 == nil
+// ---- added by the C08 extension (splitNameDigest's body is verified now): the string split is the name
+// asked for; a digest part, if any, is what is parsed and answered; the manifest is consulted only when
+// there is no digest part, and then under the whole string given (nothing cut off)
+//@   assert-at call splitNameDigest #1 : arg0 == name
+//@   assert-at call ParseDigest #1 : arg0 == digest && digest != ""
+//@   assert-at call manifestPath #1 : digest == ""
 
 // Import: the temp file is renamed to the name of the digest that was computed while it was
 // written, only after the byte count matched and the file was closed without error.
@@ -359,6 +431,18 @@ package blob
 // (FAILS for size == 0: Import(empty reader, 0) returns sha256(""), nil and Get says ErrNotExist -
 // the same defect as copyNamedFile#post.1, on Import's own path. Genuine defect, see props/C08.json.)
 //@   ensures result.1 == nil ==> size > 0
+// ---- added by the C08 extension: the A-tee assumption ("every byte io.Copy wrote to f was first written to h,
+// so f and h hold the same stream") presupposes that both start empty: proved here - the temp file is the one
+// just created and the hash is brand new when the copy starts; the destination of the copy is a file
+//@   assert-at call io.Copy #1 : h.ghost_len == 0 && h.ghost_stream == 0 && h.ghost_ishash == 1
+//@   assert-at call io.Copy #1 : f.ghost_len == 0 && f.ghost_stream == 0 && f.ghost_ishash == 0
+//@   assert-at call io.Copy #1 : tagis(arg0, "*os.File")
+// every error return carries the zero digest (never a digest under which nothing was stored)
+//@   assert-at return #1 : result.1 != nil
+//@   assert-at return #2 : result.1 != nil
+//@   assert-at return #3 : result.1 != nil && n != size
+//@   assert-at return #4 : result.1 != nil
+//@   assert-at return #5 : result.1 != nil
 
 // Unlink: removes exactly the manifest path of the name.
 //@ func (*DiskCache).Unlink
@@ -386,6 +470,10 @@ package blob
 //@   assert-at return #2 : forall k int :: 0 <= k && k < 32 ==> zero.sum[k] == 0
 //@   assert-at return #3 : forall k int :: 0 <= k && k < 32 ==> zero.sum[k] == 0
 //@   assert-at return #4 : len(sum) == 64 && prefix == "sha256" && 0 <= i && prefix == s[:i] && sum == s[i+1:]
+// ---- added by the C08 extension: the 64 characters are decoded into the 32 bytes of the digest that is
+// returned (not into another buffer), success returns that digest with a nil error
+//@   assert-at call encoding/hex.Decode #1 : len(arg0) == 32 && len(arg1) == 64
+//@   assert-at return #4 : err == nil && result.1 == nil && (forall k int :: 0 <= k && k < 32 ==> result.0.sum[k] == d.sum[k])
 
 //@ extern func server/internal/internal/names.Parse
 //@   pure reads none
@@ -439,6 +527,10 @@ package blob
 // (stated at the returns: return #2 returns the package variable io.ErrUnexpectedEOF, which the engine cannot relate to nil)
 //@   assert-at return #1 : c.f == nil
 //@   assert-at return #3 : result == nil ==> ghost_chunkok == 1
+// ---- added by the C08 extension: the sink of the gated writer is the OffsetWriter made for this chunk
+// (proved part of assumption A-open), positioned on the Chunker's file
+//@   assert-at call io.CopyN #1 : tagis(cw.w, "*io.OffsetWriter")
+//@   assert-at call io.NewOffsetWriter #1 : tagis(arg0, "*os.File")
 
 // DiskCache.Chunked (added by the C08 audit): a Chunker that writes nothing (f == nil,
 // "pre-validated") is handed out only for a file of exactly the expected size under the digest's
@@ -452,6 +544,8 @@ package blob
 //@   assert-at return #1 : err == nil && info.Size() == size
 //@   assert-at call os.OpenFile #1 : arg0 == c.GetFile(d) && (arg1 & 64) != 0 && (arg1 & 3) != 0 && (arg1 & 1024) == 0 && (arg1 & 512) == 0
 //@   assert-at return #3 : result.1 == nil && result.0 != nil && result.0.f != nil && result.0.f == f && result.0.digest == d && result.0.size == size
+// ---- added by the C08 extension: a failed open hands out no Chunker
+//@   assert-at return #2 : result.0 == nil && result.1 != nil
 
 // manifestPath, loop body (range-over-func yield closure; added by the C08 audit): "case-insensitive
 // manifest path lookup": the scan stops at the first existing link that equals the wanted path
@@ -558,3 +652,99 @@ package blob
 // answered by manifestPath$1, see its contract), no link on disk matches, and the answer is the
 // canonical path: the join of c.dir and the wanted path, with a nil error
 //@   assert-at return : ghost_scanned == 1 && ghost_exit == 0 ==> lnkclear(c.dir, blstr(ghost_maybe), nlnk(c.dir)) && result.0 == fpjoin2(c.dir, blstr(ghost_maybe)) && result.1 == nil
+
+// ==== C08 extension: functions newly under contract =========================================================
+
+// Open: the cache handed out is rooted at the directory given (c.dir is what GetFile and manifestPath
+// build every name from, and nothing else in the package writes it), its test hook is nil (assumption
+// A-hook holds for every cache made by Open), an empty directory name is refused, and both
+// sub-directories every later store relies on - blobs and manifests - were created below that
+// directory before success is reported.
+//@ extern func errors.New
+//@   modifies nothing
+//@   ensures result != nil
+//@ func Open
+//@   ghost-at entry : ghost_made := 0
+//@   assert-at call os.MkdirAll #1 : arg0 == dir && dir != ""
+//@   loop 1 invariant len(subdirs) == 2 && subdirs[0] == "blobs" && subdirs[1] == "manifests" && ghost_made == rangeindex + 1 && 0 <= ghost_made
+//@   assert-at call os.MkdirAll #2 : 0 <= ghost_made && ghost_made < 2 && arg0 == fpjoin2(dir, subdirs[ghost_made])
+//@   ghost-at after call os.MkdirAll #2 : ghost_made := ite(result == nil, ghost_made + 1, ghost_made)
+//@   ensures result.1 == nil ==> result.0 != nil && result.0.dir == dir && dir != "" && result.0.testHookBeforeFinalWrite == nil
+//@   ensures result.1 == nil ==> ghost_made == 2
+//@   ensures result.0 == nil || result.1 == nil
+
+// Chunker.Close closes the handle the chunks were written through (no other), and reports its error.
+//@ func (*Chunker).Close
+//@   modifies nothing
+//@   assert-at call Close #1 : arg0 == c.f
+//@   ghost-at entry : ghost_cl := 0
+//@   ghost-at after call Close #1 : ghost_cl := ite(result == nil, 1, 0)
+//@   ensures result == nil ==> ghost_cl == 1
+
+// Digest: the zero digest is the only invalid one; Sum is the 32 bytes; DigestFromBytes is SHA-256 of
+// exactly the bytes given (same abstract model as the hash objects: shabyte of the stream 0 ++ v).
+//@ extern func crypto/sha256.Sum256
+//@   modifies nothing
+//@   ensures forall k int :: 0 <= k && k < 32 ==> result[k] == shabyte(sapp(0, data, len(data)), k)
+//@ func (Digest).IsValid
+//@   pure reads none
+// (engine: `d != Digest{}` is encoded as inequality of the whole abstract byte array, cells beyond 31 included, so
+// "valid ==> some byte of the sum is non-zero" cannot be shown; both clauses below are the directions that can)
+//@   ensures (exists k int :: 0 <= k && k < 32 && d.sum[k] != 0) ==> result
+//@   ensures (forall k int :: d.sum[k] == 0) ==> !result
+//@ func (Digest).Sum
+//@   pure reads none
+//@   ensures forall k int :: 0 <= k && k < 32 ==> result[k] == d.sum[k]
+//@ func DigestFromBytes
+//@   modifies nothing
+// (`v` has the type parameter S: the stream hashed is named at the call that consumes the conversion)
+//@   ghost-at entry : ghost_in := 0 - 1
+//@   ghost-at after call crypto/sha256.Sum256 #1 : ghost_in := sapp(0, arg0, len(arg0))
+//@   ensures forall k int :: 0 <= k && k < 32 ==> result.sum[k] == shabyte(ghost_in, k)
+// String: the canonical print "sha256:" + hex of one operand (the sum)
+//@ func (Digest).String
+//@   modifies nothing
+//@   assert-at call fmt.Sprintf #1 : arg0 == "sha256:%x" && len(arg1) == 1
+
+// MarshalText prints the canonical form; UnmarshalText overwrites only the zero digest, only with a digest
+// ParseDigest accepted, and leaves the receiver untouched when it reports an error (a manifest's layer
+// digests are decoded through it: a half-assigned digest would name another blob).
+//@ func (Digest).MarshalText
+//@   modifies nothing
+//@   assert-at call String #1 : arg0 == d
+//@   ensures result.1 == nil
+//@ func (*Digest).UnmarshalText
+//@   modifies *d
+//@   ghost-at entry : ghost_parsed := 0
+//@   ghost-at after call ParseDigest #1 : ghost_parsed := ite(result.1 == nil, 1, 0)
+//@   ensures result == nil ==> ghost_parsed == 1
+//@   ensures result != nil ==> (forall k int :: 0 <= k && k < 32 ==> d.sum[k] == old(d.sum[k]))
+//@   ensures (exists k int :: 0 <= k && k < 32 && old(d.sum[k]) != 0) ==> result != nil
+//@   assert-at return #3 : forall k int :: 0 <= k && k < 32 ==> d.sum[k] == v.sum[k]
+
+// Links (observation point of C08: "Links after each operation"), loop body (range-over-func yield closure):
+// every link of the listing is handed on as pathToName(that link) with a nil error, an error item is handed on
+// once as ("", err) and ends the listing, and the listing goes on exactly as long as the consumer says so.
+//@ func (*DiskCache).Links$1$1
+//@   requires jump$1 == 0   -- range-over-func protocol (compiler-generated guard)
+//@   ghost-at entry : ghost_item := blid(arg0)
+//@   ghost-at entry : ghost_name := 0 - 1
+//@   ghost-at entry : ghost_more := 0 - 1
+//@   assert-at call #1 : arg0 == "" && arg1 != nil
+//@   assert-at call pathToName #1 : blid(arg0) == ghost_item
+//@   ghost-at after call pathToName #1 : ghost_name := blid(result)
+//@   assert-at call #3 : blid(arg0) == ghost_name && arg1 == nil
+//@   ghost-at after call #3 : ghost_more := ite(result, 1, 0)
+//@   ensures arg1 != nil ==> !result
+//@   ensures arg1 == nil ==> (result <==> ghost_more == 1)
+//@   ensures jump$1 == ite(result, 0, ite(arg1 != nil, 1, 2))
+
+// pathToName (what Links reports for a link): the "manifests/" prefix is what is trimmed, the scan for the
+// last '/' stays inside the rune slice, and a path without a separator is reported as it is.
+//@ extern func strings.TrimPrefix
+//@   pure
+//@   ensures len(result) <= len(s)
+//@ func pathToName
+//@   modifies nothing
+//@   assert-at call strings.TrimPrefix #1 : arg0 == s && arg1 == "manifests/"
+//@   loop 1 invariant i < len(rr)
